@@ -812,6 +812,13 @@ class Project(MessageHandler):
             elif hasattr(vac, "contains") and vac.contains(date):
                 return False
         weekday: int = date.weekday()
+        # Project-wide 'workinghours' replace the built-in Mon-Fri 9-17 default
+        default_hours = self.attributes.get("workinghours")
+        if default_hours is not None and getattr(default_hours, "_custom_hours_set", False):
+            minutes: int = date.hour * 60 + date.minute
+            return any(
+                sh * 60 + sm <= minutes < eh * 60 + em for (sh, sm), (eh, em) in default_hours._hours.get(weekday, [])
+            )
         if weekday >= 5:  # Saturday or Sunday
             return False
         hour: int = date.hour
